@@ -16,6 +16,16 @@ open AsynqModel
 /-- dispatch one case to the model of its mode -/
 def handleCase (mode : String) (id : Nat) (hdr body : List Sexp) : String :=
   match mode with
+  | "cancelfam" =>
+    -- a batch with blocked tasks is cancelled by a sibling: it is never flushed (events: only batch B's
+    -- before/body/after, exactly once, in that order), the waiters get the cancellation error, the scheduler is clean
+    match hdr, body with
+    | [_, _, .atom h, _], [.list [.atom "result", .atom out, clean, .list evs]] =>
+      let expected := if h == "1" then "handled" else "raised-cancel"
+      let evOk := evs == [.atom "before-B", .atom "body-B", .atom "after-B"]
+      if out == expected && clean.nat? == some 1 && evOk then s!"R {id} CORR=ok SPEC=ok SPECM=ok | "
+      else s!"R {id} CORR=diff SPEC=fail:cancelled-batch-{out}-clean{clean}-events-{if evOk then "ok" else "wrong"} SPECM=ok | expected {expected}, events before-B body-B after-B only; got {Sexp.list evs}"
+    | _, _ => s!"R {id} CORR=diff SPEC=ok SPECM=ok | unparsable cancel case"
   | "ctxraise" =>
     -- a context hook (pause / resume) raises while its task is suspended / continued: the task fails with that very
     -- exception (a handler in the awaiting task gets it), nothing else escapes, the scheduler is clean, the next
